@@ -32,9 +32,12 @@ type Encoder struct {
 	ref    map[reflect.Type]int
 	last   int
 	// depth counts the values being written, one inside the other (see writeValue)
-	depth  int
-	Writer io.Writer
-	Error  error
+	depth int
+	// path holds the values on the way down once the nesting is deeper than cycleCheckDepth
+	path      map[encodePathKey]struct{}
+	pathStack []encodePathKey
+	Writer    io.Writer
+	Error     error
 }
 
 // NewEncoder create an encoder object.
@@ -110,18 +113,103 @@ func (enc *Encoder) fastWriteValue(v interface{}) (ok bool) {
 }
 
 func (enc *Encoder) writeValue(v interface{}, encode func(m ValueEncoder, v interface{})) {
-	if enc.depth >= maxDepth {
-		// a map or a list that contains itself, or any cyclic structure in simple mode: an
-		// error instead of recursing until the goroutine stack is exhausted
-		if enc.Error == nil {
-			enc.Error = ErrNestedTooDeep
-		}
-		enc.WriteNil()
+	if !enc.enter(v) {
 		return
 	}
-	enc.depth++
+	defer enc.leave(v)
 	enc.doWriteValue(v, encode)
+}
+
+// maxEncodeDepth bounds the nesting of the value an encoder is given. A struct reached through
+// an interface or a list passes two of the places that count (writeValue and the struct
+// encoder), so twice the decoder's limit lets the encoder write back whatever the decoder reads.
+const maxEncodeDepth = 4 * maxDepth
+
+// cycleCheckDepth: below it nesting is only counted; deeper than any ordinary data the values
+// on the way down are remembered, so that a value that contains itself is found one lap
+// later instead of being written maxEncodeDepth times over.
+const cycleCheckDepth = 1000
+
+type encodePathKey struct {
+	t reflect.Type
+	p uintptr
+	n int
+}
+
+// enter is called where the encoder descends into a value. It refuses (writes null, sets
+// ErrNestedTooDeep) a value nested too deep - a map or a list that contains itself, any
+// cyclic structure in simple mode - instead of recursing until the goroutine stack is
+// exhausted, and once it has refused it refuses everything below: going on would write the
+// rest of an infinite unfolding, one branch after the other.
+func (enc *Encoder) enter(v interface{}) bool {
+	if enc.Error == ErrNestedTooDeep {
+		enc.WriteNil()
+		return false
+	}
+	if enc.depth >= maxEncodeDepth {
+		enc.Error = ErrNestedTooDeep
+		enc.WriteNil()
+		return false
+	}
+	enc.depth++
+	if enc.depth > cycleCheckDepth {
+		key, ok := encodePathKeyOf(v)
+		if ok {
+			if _, onPath := enc.path[key]; onPath {
+				if n := len(enc.pathStack); n > 0 && enc.pathStack[n-1] == key {
+					// the value the enclosing step has just entered, handed on to its encoder
+					// (writeValue, then the struct encoder): not a second occurrence
+					ok = false
+				} else {
+					enc.depth--
+					enc.Error = ErrNestedTooDeep
+					enc.WriteNil()
+					return false
+				}
+			}
+		}
+		if ok {
+			if enc.path == nil {
+				enc.path = make(map[encodePathKey]struct{})
+			}
+			enc.path[key] = struct{}{}
+			enc.pathStack = append(enc.pathStack, key)
+		} else {
+			enc.pathStack = append(enc.pathStack, encodePathKey{})
+		}
+	}
+	return true
+}
+
+func (enc *Encoder) leave(v interface{}) {
+	if enc.depth > cycleCheckDepth {
+		if n := len(enc.pathStack); n > 0 {
+			if key := enc.pathStack[n-1]; key != (encodePathKey{}) {
+				delete(enc.path, key)
+			}
+			enc.pathStack = enc.pathStack[:n-1]
+		}
+	}
 	enc.depth--
+}
+
+// encodePathKeyOf identifies a value that can contain itself: a pointer, a map, a non-empty slice.
+func encodePathKeyOf(v interface{}) (key encodePathKey, ok bool) {
+	if v == nil {
+		return
+	}
+	rv := reflect.ValueOf(v)
+	switch rv.Kind() {
+	case reflect.Ptr, reflect.Map:
+		if !rv.IsNil() {
+			return encodePathKey{rv.Type(), rv.Pointer(), 0}, true
+		}
+	case reflect.Slice:
+		if rv.Len() > 0 {
+			return encodePathKey{rv.Type(), rv.Pointer(), rv.Len()}, true
+		}
+	}
+	return
 }
 
 func (enc *Encoder) doWriteValue(v interface{}, encode func(m ValueEncoder, v interface{})) {
@@ -325,6 +413,10 @@ func (enc *Encoder) Reset() *Encoder {
 	}
 	enc.last = 0
 	enc.depth = 0
+	for k := range enc.path {
+		delete(enc.path, k)
+	}
+	enc.pathStack = enc.pathStack[:0]
 	return enc
 }
 
